@@ -103,6 +103,7 @@ static void gen_ops(void)
 				if (cbits) {
 					addop(k, b0 + 1, nmax - 1, 0);			/* unaligned start */
 					addop(k, b0, nmax - cs + 1, 0);			/* unaligned end */
+					if (v > u) addop(k, b0 + cs - 1, nmax - 2 * (cs - 1), 0);	/* minimal spelling: last block of cluster u .. first block of cluster v */
 				}
 			}
 			addop(O_FFZ, b0, (((uint64_t)v + 1) << cbits) - 1, 0);
